@@ -203,7 +203,39 @@ class SymEnv:
         self.claims.append((name, key or name, ob))
         if self.on_claim:
             self.on_claim(name, key or name, ob)
+            if ob.status == "sat":
+                # a second counterexample whose values are exactly representable as doubles (multiples of 1/64): equalities the
+                # violation depends on (a cache key that matches, a boundary that is hit) survive the conversion to floats
+                fm = self._float_friendly_model(z3.Not(rx if ob.meta.get("relaxed") else ex))
+                if fm is not None:
+                    import copy as _copy
+
+                    ob2 = _copy.copy(ob)
+                    ob2.model = fm
+                    self.on_claim(name, key or name, ob2)
         return ob
+
+    def _float_friendly_model(self, neg, timeout_ms=3000):
+        s = self.ctx.solver
+        s.push()
+        try:
+            s.set("timeout", timeout_ms)
+            s.add(neg)
+            for k, v in self.ctx.inputs.items():
+                if z3.is_real(v):
+                    s.add(z3.IsInt(v * 64))
+            r = s.check()
+            import os as _os
+
+            if _os.environ.get("VERIF_DEBUG"):
+                print("[friendly model]", r, flush=True)
+            if r == z3.sat:
+                return self.ctx.model_dict()
+        except z3.Z3Exception:
+            pass
+        finally:
+            s.pop()
+        return None
 
     def cut(self, value, name, guarantees=(), inject=True):
         """Replace a term by a fresh variable carrying only `guarantees(fresh)` (each proved by an earlier claim)"""
@@ -255,7 +287,39 @@ class SymEnv:
         self.claims.append((name, key or name, ob))
         if self.on_claim:
             self.on_claim(name, key or name, ob)
+            if ob.status == "sat":
+                # a second counterexample whose values are exactly representable as doubles (multiples of 1/64): equalities the
+                # violation depends on (a cache key that matches, a boundary that is hit) survive the conversion to floats
+                fm = self._float_friendly_model(z3.Not(rx if ob.meta.get("relaxed") else ex))
+                if fm is not None:
+                    import copy as _copy
+
+                    ob2 = _copy.copy(ob)
+                    ob2.model = fm
+                    self.on_claim(name, key or name, ob2)
         return ob
+
+    def _float_friendly_model(self, neg, timeout_ms=3000):
+        s = self.ctx.solver
+        s.push()
+        try:
+            s.set("timeout", timeout_ms)
+            s.add(neg)
+            for k, v in self.ctx.inputs.items():
+                if z3.is_real(v):
+                    s.add(z3.IsInt(v * 64))
+            r = s.check()
+            import os as _os
+
+            if _os.environ.get("VERIF_DEBUG"):
+                print("[friendly model]", r, flush=True)
+            if r == z3.sat:
+                return self.ctx.model_dict()
+        except z3.Z3Exception:
+            pass
+        finally:
+            s.pop()
+        return None
 
     def raised(self, exname=None):
         """Symbolic condition under which a declared exception was raised at merge points so far"""
